@@ -84,7 +84,7 @@ def programs(tier, b):
                 B.add({"op": "call", "fn": fn, "args": [B.opnd(("S", a))], "tag": "main"})
             add("b%d/%s/%d" % (b, fn, a), {"op": "bool", "kinds": "S", "a": a, "n": b, "fn": fn}, build)
     # packing: range check on unpack of secret bits
-    for mod in (2, 3, 5, 6):
+    for mod in (2, 3, 5, 6, 7):
         nb = (mod - 1).bit_length()
         for a in range(0, 1 << nb):
             for typed in ("lincomb", "bool"):
@@ -98,8 +98,8 @@ def programs(tier, b):
     return progs
 
 
-def build_insts(run, cfg, tier):
-    progs = programs(tier, cfg["bitlength"])
+def build_insts(run, cfg, tier, select=None):
+    progs = [p for p in programs(tier, cfg["bitlength"]) if select is None or select(p["id"])]
     traces = common.run_programs(cfg, progs)
     byid = {t["id"]: t for t in traces}
     insts = []
